@@ -582,6 +582,9 @@ def byte_helpers(rep, tier):
         require(rep, r, "G1_to_pubkey returns 48 bytes", pth.decisions, rp)
         r, m = pth.ctx.prove(z3.Length(sig.t) == 96)
         require(rep, r, "G2_to_signature returns 96 bytes", pth.decisions, rp)
+        if "g1" not in seen or "g2" not in seen:
+            rep.fail("pubkey_to_G1 / signature_to_G2 returned without calling the word decoder", {"kind": "c11_bytes_decode", "args": {"which": "pubkey_to_G1"}})
+            return
         r, m = pth.ctx.prove(SymZ.lift(seen["g1"]).t == z.t)
         require(rep, r, "pubkey_to_G1(G1_to_pubkey(P)) hands decompress_G1 the compressed word", pth.decisions, rp)
         a, b = seen["g2"]
